@@ -142,6 +142,7 @@ def run_property(prop, tier, seed, root):
     functions = sorted({j["contract"] for j in jobs})
     samples = []
     names_now = set()
+    proof_lost = {}
     not_generalised = []
     generated_kinds = set()
     rng = random.Random(seed)
@@ -153,6 +154,12 @@ def run_property(prop, tier, seed, root):
         for e in j["errors"]:
             errors.append(f"{j['contract']} {j['instance']}: {e}")
         for d, tr in j["unsupported"]:
+            if "does not fit this code" in str(d):
+                # a loop contract written against the variables of the original loop cannot be stated for a rewritten
+                # loop: the deductive proof of this function is not re-established on this tree (the bounded
+                # stand-in still runs); that is a statement about the proof, not about the code
+                proof_lost.setdefault(j["contract"], str(d)[:200])
+                continue
             if j.get("generalisation"):
                 # an instance that only widens the quantifier range (symbolic channel count, ...): when the code is
                 # written in a way the symbolic route cannot follow, the generalisation is simply not established
@@ -285,7 +292,9 @@ def run_property(prop, tier, seed, root):
         # guard looks at the contract-driven kinds generated before that filter, i.e. it demands that every
         # function was still executed to its end against its spec.
         have = kinds_now | (generated_kinds if cfg.get("obligation_filter") else set())
-        vanished = sorted(n for n in set(baseline.get("guard", baseline["names"])) - have if not SITE_DRIVEN.search(n))
+        lost = tuple("/" + q.replace("pulsarbat.", "") + "/" for q in proof_lost)
+        vanished = sorted(n for n in set(baseline.get("guard", baseline["names"])) - have
+                          if not SITE_DRIVEN.search(n) and not any(l in n for l in lost))
     # ---- known findings
     known = load_json(os.path.join(HERE, "known_findings.json"), {"findings": []})["findings"]
     violations, known_hits = [], []
@@ -360,6 +369,7 @@ def run_property(prop, tier, seed, root):
         "rule": "bounded stand-in: spec function evaluated concretely vs the real function on seeded inputs; distinct = distinct (function, instance, input) triples",
         "explanation": cfg.get("explanation", ""),
         "known_findings_hit": [h["id"] for h, _ in known_hits],
+        "proof_not_reestablished": [{"function": q, "why": w, "decided_by": "bounded stand-in only on this tree"} for q, w in sorted(proof_lost.items())],
         "generalisation_instances": sorted({f"{j['contract']} {j['instance']}" for j in jobs if j.get("generalisation")}),
         "generalisations_not_established": not_generalised[:20],
         "canaries": canary_report, "canaries_killed": sum(1 for c_ in canary_report if c_["killed"]),
@@ -379,6 +389,8 @@ def run_property(prop, tier, seed, root):
         print(l)
     for u in undecided[:10]:
         print("UNDECIDED", json.dumps(u, default=str)[:400])
+    for q, w in sorted(proof_lost.items()):
+        print(f"NOTE proof not re-established for {q}: {w}; decided by the bounded stand-in only on this tree")
     for v in vanished[:10]:
         print("UNDECIDED obligation no longer generated:", v)
     for e in errors[:5]:
